@@ -139,6 +139,7 @@ class Check:
         self.tier = tier
         self.rc = 0
         self.parts = {}
+        self.dead = []
         self.native = None
 
     def note(self, rc):
@@ -178,20 +179,57 @@ class Check:
                 sys.stdout.write(p.stdout)
             self.note(p.returncode)
 
-    def run_plain(self, sub, kind, n, main=False, extra=None):
-        binary = self.native if sub == 'native' else build(sub)
-        args = [binary] + self.common(sub) + self.amount(kind, n) + (extra or [])
-        part = '%s/%s.%s.json' % (PARTS, self.prop, sub)
-        if main:
-            args += ['--evidence', '%s/%s.json' % (EVID, self.prop)]
+    def died(self, sub, binary, status, stderr, note, extra):
+        """A substrate process was killed (std's unsafe-precondition check or a
+        debug assertion in a non-unwinding context aborts; real memory
+        corruption may segfault). Turn that into a replayable violation of
+        C06; other properties' checks carry on with their other substrates."""
+        tail = [l for l in stderr.strip().splitlines() if l.strip()][-3:]
+        summary = ' | '.join(tail)[:400] if tail else 'process died with status %d' % status
+        if not os.path.exists(note):
+            sys.stderr.write(stderr[-4000:])
+            say('HARNESS ERROR: %s substrate died with status %d and left no note of the run it was executing' % (sub, status))
+            self.note(2)
+            return
+        prop, seed, index = open(note).read().split()
+        os.makedirs(FOUND, exist_ok=True)
+        path = '%s/%s-process-aborted-%s-%s.json' % (FOUND, self.prop, seed, index)
+        j = {'format': 1, 'kind': 'seed', 'property': self.prop, 'oracle': 'process-aborted', 'detail': summary, 'verif_seed': int(seed),
+             'run_index': int(index), 'substrate': sub, 'skip_fast_utf8': None, 'tiny': False,
+             'violation_line': 'VIOLATION property=%s replay=%s' % (self.prop, path)}
+        # skip flag of that run: ask the binary's own rule through a trace on the nodebug build is overkill; the
+        # replay regenerates the run from (seed, index) with the same rule
+        j.pop('skip_fast_utf8')
+        with open(path, 'w') as f:
+            json.dump(j, f, indent=1)
+        rp = subprocess.run([binary, 'replay', path] + extra, stdout=subprocess.PIPE, stderr=subprocess.PIPE, text=True)
+        if rp.returncode in (0, 2):
+            say('HARNESS ERROR: the abort in run %s on %s did not reproduce from %s' % (index, sub, path))
+            self.note(2)
+            return
+        say('violation: run %s killed the process on the %s substrate: %s' % (index, sub, summary))
+        if self.prop == 'C06':
+            say('VIOLATION property=C06 replay=%s' % path)
+            self.note(1)
         else:
-            args += ['--stats-out', part]
-        p = subprocess.run(args)
-        self.note(p.returncode if p.returncode in (0, 1, 2) else 2)
-        if p.returncode not in (0, 1, 2):
-            say('HARNESS ERROR: %s substrate died with status %d' % (sub, p.returncode))
-        if not main and os.path.exists(part):
-            self.parts[sub] = [part]
+            say('(the abort is C06\'s to report - ./check C06; %s continues on its other substrates, replay kept at %s)' % (self.prop, path))
+            self.dead.append(sub)
+
+    def run_plain(self, sub, kind, n, extra=None):
+        binary = self.native if sub == 'native' else build(sub)
+        part = '%s/%s.%s.json' % (PARTS, self.prop, sub)
+        note = '%s/%s.%s.death' % (PARTS, self.prop, sub)
+        if os.path.exists(note):
+            os.remove(note)
+        args = [binary] + self.common(sub) + self.amount(kind, n) + (extra or []) + ['--stats-out', part, '--death-note', note]
+        p = subprocess.run(args, stderr=subprocess.PIPE, text=True)
+        if p.returncode in (0, 1, 2):
+            sys.stderr.write(p.stderr)
+            self.note(p.returncode)
+            if os.path.exists(part):
+                self.parts[sub] = [part]
+            return
+        self.died(sub, binary, p.returncode, p.stderr, note, [])
 
     def run_asan(self, kind, n):
         binary = build('asan')
@@ -270,19 +308,22 @@ class Check:
         if parts:
             self.parts['miri'] = parts
 
-    def merge(self):
-        """Fold the per-substrate statistics into the evidence file."""
+    def merge(self, order):
+        """The evidence file = the statistics of the first substrate of the plan
+        that completed, with the other substrates' statistics folded in."""
         ev_path = '%s/%s.json' % (EVID, self.prop)
-        if not os.path.exists(ev_path):
-            raise HarnessError('no evidence written for ' + self.prop)
-        ev = json.load(open(ev_path))
+        main = next((s for s in order if s in self.parts), None)
+        if main is None:
+            raise HarnessError('no substrate completed for ' + self.prop)
+        ev = json.load(open(self.parts[main][0]))
         cov = ev['coverage']
-        subs = {'native': {'evaluations': cov['evaluations'], 'distinct_nontrivial': cov['distinct_nontrivial'], 'wall_s': ev['wall_s'],
-                           'violations': ev.get('violations', 0), 'converter_calls': cov.get('converter_calls')}}
-        total = cov['evaluations']
-        for sub, files in self.parts.items():
+        subs = {}
+        total = 0
+        for sub in order:
+            if sub not in self.parts:
+                continue
             agg = {'evaluations': 0, 'distinct_nontrivial': 0, 'wall_s': 0.0, 'violations': 0, 'converter_calls': 0}
-            for f in files:
+            for f in self.parts[sub]:
                 try:
                     j = json.load(open(f))
                 except Exception:
@@ -292,12 +333,14 @@ class Check:
                 agg['converter_calls'] += j['coverage'].get('converter_calls', 0)
                 agg['wall_s'] = max(agg['wall_s'], j['wall_s'])
                 agg['violations'] += j.get('violations', 0)
-                if 'faults_fired' in j['coverage']:
+                if sub != main and 'faults_fired' in j['coverage']:
                     agg['faults_fired'] = j['coverage']['faults_fired']
             subs[sub] = agg
             total += agg['evaluations']
         cov['substrates'] = subs
-        cov['evaluations_native'] = cov['evaluations']
+        cov['substrates_killed_by_the_code_under_test'] = self.dead
+        cov['evaluations_main_substrate'] = cov['evaluations']
+        cov['main_substrate'] = main
         cov['evaluations'] = total
         ev['violations'] = sum(s.get('violations', 0) for s in subs.values())
         ev['wall_s'] = round(time.time() - T0, 2)
@@ -308,15 +351,15 @@ class Check:
 # per property: which substrates, how much
 def plan(prop, tier):
     if tier == 'quick':
-        p = [('native', 'runs', 300000 if prop == 'C19' else 1000000)]
+        p = [('native', 'runs', 300000 if prop == 'C19' else 1000000), ('nodebug', 'runs', 150000 if prop == 'C19' else 500000)]
         if prop == 'C05':
             p += [('simd', 'runs', 500000)]
         if prop == 'C06':
-            p += [('nodebug', 'runs', 500000), ('asan', 'runs', 150000), ('simd', 'runs', 300000)]
+            p += [('asan', 'runs', 150000), ('simd', 'runs', 300000)]
         if prop == 'C18':
             p += [('simd', 'runs', 300000), ('miri', 'runs', 32)]
         return p
-    p = [('native', 'secs', 600), ('simd', 'secs', 120), ('nodebug', 'secs', 60)]
+    p = [('native', 'secs', 600), ('nodebug', 'secs', 120), ('simd', 'secs', 120)]
     if prop in ('C02', 'C04', 'C05', 'C06', 'C10', 'C18'):
         p += [('asan', 'secs', 120)]
     if prop in ('C05', 'C06', 'C18'):
@@ -339,16 +382,18 @@ def check(prop, tier):
     c = Check(prop, tier)
     c.native = build('native')
     c.regress()
-    first = True
+    order = []
     for sub, kind, n in plan(prop, tier):
+        order.append(sub)
         if sub == 'asan':
             c.run_asan(kind, n)
         elif sub == 'miri':
             c.run_miri(n, 1 if tier == 'quick' else min(16, THREADS))
         else:
-            c.run_plain(sub, kind, n, main=first)
-        first = False
-    c.merge()
+            c.run_plain(sub, kind, n)
+    if c.rc == 2:
+        return 2
+    c.merge(order)
     return c.rc
 
 
@@ -382,7 +427,13 @@ def replay(path):
     if sub not in BUILDS:
         sub = 'native'
     binary = build(sub)
-    p = subprocess.run([binary, 'replay', path])
+    p = subprocess.run([binary, 'replay', path], stderr=subprocess.PIPE, text=True)
+    if p.returncode not in (0, 1, 2):
+        tail = [l for l in p.stderr.strip().splitlines() if l.strip()][-2:]
+        say('reproduced: the process was killed (status %d): %s' % (p.returncode, ' | '.join(tail)[:300]))
+        say('VIOLATION property=%s replay=%s' % (prop, path))
+        return 1
+    sys.stderr.write(p.stderr)
     return p.returncode if p.returncode in (0, 1) else 2
 
 
